@@ -40,6 +40,10 @@ def realise(cin, variant):
             kw["ck"] = f("ck")
     co = docs.coeffs(mt, f("c"), **kw)
     seg_lo, seg_hi = -70.0, 150.0
+    order = None
+    for o in ("sorted", "reversed"):
+        if variant.endswith(":" + o):
+            order, variant = o, variant[: -len(o) - 1]
     if variant.endswith(":seg"):
         # a fit parks a balance point ON its segment bound when usage depends on temperature over the whole fitted range:
         # the recorded segment limits coincide with the stored balance points (the outer limits stay beyond the probes)
@@ -54,7 +58,7 @@ def realise(cin, variant):
                         profile="current" if mt.endswith("smooth") and not billing else "legacy", billing=billing)
     out = {"res": "ok", "rows": []}
     try:
-        model = docs.load(doc, billing=billing)
+        model = docs.load(doc, billing=billing, order=order)
         T = np.array([float(fr(p)) for p in cin["probes"]])
         idx = pd.date_range(pd.Timestamp("2021-05-03", tz=tz), periods=len(T), freq="D")
         C = em.BillingReportingData if billing else em.DailyReportingData
